@@ -149,6 +149,17 @@ impl<'a> ConstraintValidator<'a> {
         }
     }
 
+    /// The value a column takes when none is supplied: its DEFAULT, or NULL.
+    pub fn default_for_column(&self, idx: usize) -> OwnedValue {
+        match self.table.columns().get(idx) {
+            Some(column) => match column.default_value() {
+                Some(default_str) => self.parse_default(default_str, column.data_type()),
+                None => OwnedValue::Null,
+            },
+            None => OwnedValue::Null,
+        }
+    }
+
     fn parse_default(
         &self,
         default_str: &str,
